@@ -13,6 +13,7 @@
    C19 checks px.DetailedValueType on every pool value and feeds the implementation's inferred type to the model. *)
 From Coq Require Import ZArith NArith Bool List.
 From PcoreV Require Import Model.Base Model.Ty Model.Lattice Model.Describe Model.Infer Proofs.DescribeProofs Proofs.DescribeInfer.
+From PcoreV Require Import Model.DescribeCallable Proofs.DescribeCallableProofs.
 Import ListNotations.
 Open Scope Z_scope.
 
@@ -113,6 +114,77 @@ Theorem C19_assert_type_names_subject :
 Proof. exact assert_type_names_subject. Qed.
 Print Assumptions C19_assert_type_names_subject.
 
+(* ---- expected Callable types (Model/DescribeCallable.v: describeCallableType, CallableType.IsAssignable) ----
+   For every regexp oracle, every verdict of TupleType.Equals, ALL Callable types over the lattice universe
+   (parameter tuple and return type of Model/Ty.v; block absent, Callable or Optional[Callable], to any depth)
+   as expected type, every such Callable or lattice type as actual type, all paths.  A mismatch of this model
+   also records whether the expected and the actual type it carries are present (non-nil): text() of a type,
+   pattern, size or count mismatch dereferences both, so px.DescribeMismatch (describe + formatMismatch) is
+   describe_mismatch_callable, which faults (FNilType) on a mismatch with a nil type. *)
+
+(* the description AND the formatting of the message are produced without a fault: in particular the return
+   type mismatch (:842) gets the defaulted actual return type and the block mismatch (:840) a block that exists *)
+Theorem C19_callable_describe_total :
+  forall rx teq name (e : cty) (a : actual),
+    exists ms, describe_mismatch_callable rx teq name e a = Ok ms /\
+               idesc_callable rx teq e a (subject_path name) = Ok ms.
+Proof. exact describe_mismatch_callable_total. Qed.
+Print Assumptions C19_callable_describe_total.
+
+Theorem C19_callable_types_present :
+  forall rx teq (e : cty) (a : actual) (p : path) ms,
+    idesc_callable rx teq e a p = Ok ms -> forallb text_ok ms = true.
+Proof. exact idesc_callable_text_ok. Qed.
+Print Assumptions C19_callable_types_present.
+
+(* empty exactly when the actual type is assignable (casg: CallableType.IsAssignable; callable_accepts: the
+   decomposition of a lattice actual by GuardedIsAssignable) *)
+Theorem C19_callable_empty_iff_assignable :
+  forall rx teq name (e : cty) (a : actual),
+    describe_mismatch_callable rx teq name e a = Ok [] <-> casg_actual rx e a = true.
+Proof. exact describe_mismatch_callable_empty_iff. Qed.
+Print Assumptions C19_callable_empty_iff_assignable.
+
+Theorem C19_callable_describe_below :
+  forall rx teq (e : cty) (a : actual) (p : path) ms,
+    idesc_callable rx teq e a p = Ok ms -> Forall (fun m => exists r, snd (fst m) = p ++ r) ms.
+Proof. exact idesc_callable_below. Qed.
+Print Assumptions C19_callable_describe_below.
+
+Theorem C19_callable_names_subject :
+  forall rx teq name (e : cty) (a : actual) ms,
+    describe_mismatch_callable rx teq name e a = Ok ms ->
+    Forall (fun m => hd_error (snd (fst m)) = Some (PSubject, KName (fn_prefix ++ name ++ [58%N]))) ms.
+Proof. exact describe_mismatch_callable_names_subject. Qed.
+Print Assumptions C19_callable_names_subject.
+
+Theorem C19_callable_assert_type_total :
+  forall rx teq name (e : cty) (a : actual), exists o, assert_type_callable rx teq name e a = Ok o.
+Proof. exact assert_type_callable_total. Qed.
+Print Assumptions C19_callable_assert_type_total.
+
+Theorem C19_callable_assert_type_raises_iff_not_assignable :
+  forall rx teq name (e : cty) (a : actual),
+    (assert_type_callable rx teq name e a = Ok Returns <-> casg_actual rx e a = true) /\
+    ((exists m ms, assert_type_callable rx teq name e a = Ok (Raises TypeMismatchIssue (m :: ms)))
+     <-> casg_actual rx e a = false).
+Proof. exact assert_type_callable_raises_iff. Qed.
+Print Assumptions C19_callable_assert_type_raises_iff_not_assignable.
+
+(* casg reads like CallableType.IsAssignable (callabletype.go:216-248): the block types are compared in reverse *)
+Theorem C19_callable_assignable_unfold :
+  forall rx (e a : cty),
+    casg rx e a =
+    (is_bare e ||
+     (casg_head rx e a &&
+      match cblock e, cblock a with
+      | None, None => true
+      | Some (eo, eb), Some (ao, ab) => implb eo ao && casg rx ab eb
+      | _, _ => false
+      end)).
+Proof. exact casg_unfold. Qed.
+Print Assumptions C19_callable_assignable_unfold.
+
 (* ---- non-vacuity: the model computes non-trivial descriptions ---- *)
 
 Definition rx0 : str -> str -> bool := fun _ _ => false.
@@ -188,4 +260,29 @@ Example C19_ex_assert_fallback :
   asg rx0 true (TStruct [(sa, (TStringVal sa, TInt))]) (THash (TStringVal []) (TInteger 1 1) 1 1) = true /\
   assert_instance rx0 teq0 sa (TStruct [(sa, (TStringVal sa, TInt))]) (VHash [(VStr [], VInt 1)])
     (THash (TStringVal []) (TInteger 1 1) 1 1) = Ok (Raises TypeMismatchIssue [(CType, subject_path sa)]).
+Proof. vm_compute. repeat split; reflexivity. Qed.
+
+(* ---- Callable: Callable[[String], Integer] against Callable[String] (no return type: Any is described),
+   against Callable[[String], String], against a Callable that lacks the required block, against Integer ---- *)
+Definition c_e1 := CNoBlock (Some ([TString], false, 1, 1)) (Some TInt).
+Example C19_ex_callable_return :
+  describe_mismatch_callable rx0 teq0 sa c_e1 (ACallable (CNoBlock (Some ([TString], false, 1, 1)) None)) =
+    Ok [((CType, subject_path sa ++ [(PReturn, KName [])]), Types true true)] /\
+  describe_mismatch_callable rx0 teq0 sa c_e1 (ACallable (CNoBlock (Some ([TInt; TInt], false, 2, 2)) (Some TInt))) =
+    Ok [((CCount, subject_path sa), Types true true)] /\
+  describe_mismatch_callable rx0 teq0 sa c_e1 (ACallable (CNoBlock (Some ([TString], false, 1, 1)) (Some (TInteger 0 5)))) = Ok [] /\
+  describe_mismatch_callable rx0 teq0 sa c_e1 (ATy TInt) = Ok [((CType, subject_path sa), Types true true)] /\
+  describe_mismatch_callable rx0 teq0 sa c_e1 (ATy (TVariant [])) = Ok [].
+Proof. vm_compute. repeat split; reflexivity. Qed.
+Example C19_ex_callable_block :
+  let eb := CBlock (Some ([TString], false, 1, 1)) None false (CNoBlock (Some ([TInt], false, 1, 1)) None) in
+  describe_mismatch_callable rx0 teq0 sa eb (ACallable (CNoBlock (Some ([TString], false, 1, 1)) None)) =
+    Ok [((CMissingRequiredBlock, subject_path sa), NoTypes)] /\
+  describe_mismatch_callable rx0 teq0 sa eb
+    (ACallable (CBlock (Some ([TString], false, 1, 1)) None false (CNoBlock (Some ([TString], false, 1, 1)) None))) =
+    Ok [((CType, subject_path sa ++ [(PBlock, KName [])]), Types true true)] /\
+  (* a required block accepts an optional one (the block types are compared in reverse) *)
+  describe_mismatch_callable rx0 teq0 sa eb
+    (ACallable (CBlock (Some ([TString], false, 1, 1)) None true (CNoBlock (Some ([TInt], false, 1, 1)) None))) = Ok [] /\
+  casg rx0 eb (CBlock (Some ([TString], false, 1, 1)) None false (CNoBlock (Some ([TInt], false, 1, 1)) None)) = true.
 Proof. vm_compute. repeat split; reflexivity. Qed.
